@@ -49,9 +49,11 @@ RULE = (
     "d<=4, 64 for d=5), compared with the list-based reference product "
     "pbt/ga_ref.py; one judged case is one chunk (metric, left blade(s), list of "
     "right blades), non-triviality is counted per cell (metric, blade tuple). "
-    "Random tier (Hypothesis): multivectors with int/Fraction or symbolic "
+    "Random tier (explicitly weighted generator over random.Random, one "
+    "Hypothesis-drawn seed per batch of 25 cases): multivectors with int/Fraction "
+    "(2/3 of cases) or symbolic "
     "coefficients built through the public constructors (index-tuple dicts in "
-    "arbitrary index order, numpy vectors, scalars incl. 0, combined with + -) for "
+    "arbitrary index order, numpy object/int64 vectors, scalars incl. 0, combined with + -) for "
     "bilinearity of the six products, associativity, unary operations, inverse and "
     "== / hash / bool. Non-trivial = some pair of blades taking part in a product "
     "has both grades >= 1 and a shared index, or a grade >= 2 on either side "
@@ -192,6 +194,10 @@ class Env:
             except polynf.NotRational as e:
                 res.fail("bad-coefficient", f"{what}: {e} in {mv!r}"[:400])
                 return None
+            except ZeroDivisionError:
+                # e.g. Quotient(x, 0): pymbolic builds it without complaint
+                res.fail("coefficient-divides-by-zero", f"{what}: {mv!r}"[:400])
+                return None
             if not self.alg.is_zero(k):
                 out[blade] = k
         return out
@@ -204,6 +210,9 @@ class Env:
             return self.lift(c)
         except polynf.NotRational as e:
             res.fail("bad-coefficient", f"{what}: {e}: {c!r}"[:400])
+            return None
+        except ZeroDivisionError:
+            res.fail("coefficient-divides-by-zero", f"{what}: {c!r}"[:400])
             return None
 
     def show(self, ref):
@@ -507,13 +516,16 @@ def _term(env, kind, payload):
             data[idx] = c
             terms.append((list(idx), env.lift(c)))
         return MultiVector(data, env.space), alg.from_terms(terms)
-    if kind == "vec":
+    if kind in ("vec", "ivec"):
         if not isinstance(payload, list) or len(payload) != env.d:
             raise HarnessError("vec payload length")
         cs = [env.coef(c) for c in payload]
-        arr = np.empty(env.d, dtype=object)
-        for i, c in enumerate(cs):
-            arr[i] = c
+        if kind == "ivec" and all(type(c) is int for c in cs):
+            arr = np.array(cs, dtype=np.int64)       # numpy integer coefficients
+        else:
+            arr = np.empty(env.d, dtype=object)
+            for i, c in enumerate(cs):
+                arr[i] = c
         sp = env.space
         if sp is get_euclidean_space(env.d):
             mv = MultiVector(arr)            # dimension guessing, default space
@@ -1002,6 +1014,8 @@ def _g_term(r, d, sym, first, shape=None):
             ents.append([idx, _g_coef(r, sym)])
         return [sign, "dict", ents]
     if kind == "vec":
+        if r.randrange(3) == 0:
+            return [sign, "ivec", [r.randint(-3, 3) for _ in range(d)]]
         return [sign, "vec", [_g_coef(r, sym) for _ in range(d)]]
     return [sign, kind, _g_coef(r, sym)]
 
@@ -1107,7 +1121,7 @@ def _respelled(r, op, d):
             else:
                 r.shuffle(ents)
             terms.append([sign, "dict", ents])
-        elif kind == "vec" and r.randrange(2):
+        elif kind in ("vec", "ivec") and r.randrange(2):
             terms.append([sign, "dict", [[[i], c] for i, c in enumerate(payload)]])
         else:
             terms.append([sign, kind, payload])
@@ -1117,7 +1131,7 @@ def _respelled(r, op, d):
         terms.append(["+", extra[1], extra[2]])
         terms.append(["-", extra[1], extra[2]])
     elif k == 1 and len(terms) >= 2 and all(
-            t[0] == "+" and t[1] in ("dict", "vec") for t in terms[:2]):
+            t[0] == "+" and t[1] in ("dict", "vec", "ivec") for t in terms[:2]):
         terms[0], terms[1] = terms[1], terms[0]     # commute the first two summands
     return {"terms": terms}
 
@@ -1163,10 +1177,10 @@ def _run_random(ctx, sub, gen, n_cases):
 def generate(ctx):
     phases = [
         lambda: _gen_exhaustive(ctx),
-        lambda: _run_random(ctx, "bilin", gen_bilin, ctx.n(22000, 800000)),
-        lambda: _run_random(ctx, "assocmv", gen_assocmv, ctx.n(14000, 500000)),
-        lambda: _run_random(ctx, "unary", gen_unary, ctx.n(22000, 800000)),
-        lambda: _run_random(ctx, "cmp", gen_cmp, ctx.n(22000, 800000)),
+        lambda: _run_random(ctx, "bilin", gen_bilin, ctx.n(16000, 800000)),
+        lambda: _run_random(ctx, "assocmv", gen_assocmv, ctx.n(10000, 500000)),
+        lambda: _run_random(ctx, "unary", gen_unary, ctx.n(16000, 800000)),
+        lambda: _run_random(ctx, "cmp", gen_cmp, ctx.n(16000, 800000)),
     ]
     # every shard runs all phases; rotating the order only diversifies the
     # samples the runner keeps (the first non-trivial cases of each shard)
